@@ -249,6 +249,30 @@ def gen_captures(ctx):
                 "events": [[1, "0f0106", True], [2, "070106", True],
                            [1, "0e1b1700636465666768696a6b6c6d6e6f707131323334353637383930", True],
                            [2, "061b170037363534333231304142434445464748494a4b4c4d4e4f5051", True]]})
+    # payload-length boundaries through the passive decryptor (on-air length = payload + 4-byte MIC, up to 255),
+    # both directions, several maximal PDUs in a row so that a skipped PDU cannot hide behind the skew tolerance
+    CAP_BOUNDARY = [0, 1, 26, 27, 247, 248, 250, 251]
+    for i in range(8 if ctx.thorough else 2):
+        ltk, mat = rand_material(rng)
+        evs = []
+        first = M2S if i % 2 == 0 else S2M
+        other = S2M if first == M2S else M2S
+        for n in (251, 251, 250, 248):                       # four long PDUs in a row in one direction ...
+            evs.append([first, rand_pdu(rng, n).hex(), True])
+        evs.append([first, rand_pdu(rng, 27).hex(), True])   # ... then an ordinary one that must still decrypt
+        for n in (248, 251, 251):
+            evs.append([other, rand_pdu(rng, n).hex(), True])
+        evs.append([other, rand_pdu(rng, 1).hex(), True])
+        lens = list(CAP_BOUNDARY)
+        rng.shuffle(lens)
+        for n in lens:                                       # every boundary length in both directions, interleaved
+            for d in (first, other):
+                evs.append([d, rand_pdu(rng, n).hex(), True])
+        if i >= 2:                                           # thorough: also with single sniffer losses between long PDUs
+            for k in range(4, len(evs), 5):
+                if evs[k - 1][2]:
+                    evs[k][2] = False
+        out.append({"ltk": ltk, "mat": mat, "keys": [ltk], "events": evs, "kind": "length-boundary" if i < 2 else "length-boundary-lossy"})
     for i in range(40 if ctx.thorough else 10):
         ltk, mat = rand_material(rng)
         keys = [ltk]
@@ -263,7 +287,7 @@ def gen_captures(ctx):
                 continue
             missed = i % 2 == 1 and rng.random() < 0.25 and run[d] < 1
             run[d] = run[d] + 1 if missed else 0
-            n = rng.choice([1, 2, 7, 20, 27, 27]) if not ctx.thorough else rng.choice(BOUNDARY_LEN[1:])
+            n = rng.choice([1, 2, 7, 20, 27, 27, 251]) if not ctx.thorough else rng.choice(BOUNDARY_LEN[1:] + [26, 247, 248])
             evs.append([d, rand_pdu(rng, n).hex(), not missed])
         out.append({"ltk": ltk, "mat": mat, "keys": keys, "events": evs, "kind": "lossy" if i % 2 else "complete"})
     return out
@@ -817,6 +841,8 @@ def run(ctx):
         "links": len(links), "link_events": sum(len(l["events"]) for l in links),
         "captures": len(captures), "captured_pdus": sum(len(r.get("air", [])) for r in r1["capture"]),
         "decryptor_raw_streams": len(dec_raw),
+        "captured_payload_lengths": sorted({len(e[1]) // 2 - 2 for c in captures for e in c["events"] if e[2]}),
+        "captured_pdus_with_payload_ge_248": sum(1 for c in captures for e in c["events"] if e[2] and len(e[1]) // 2 - 2 >= 248),
         "stack_cases": len(stack_cases), "stack_case_kinds": stack_kinds, "stack_procedures": sum(len(c["procs"]) for c in stack_cases),
         "stack_same_handle_repeated": sum(1 for c in stack_cases if len(c["procs"]) > 1 and len({p["h"] for p in c["procs"]}) < len(c["procs"])),
         "stack_event_outcomes": stack_outs, "stack_role_pairs": len(role_pairs),
